@@ -18,6 +18,8 @@ func init() {
 			c.Clause("C10-D3")
 			ruleStopOnce(c, "server")
 			ruleStopOnce(c, "client")
+			ruleStopAlwaysCloses(c, "server")
+			ruleStopAlwaysCloses(c, "client")
 			ruleStartOnce(c)
 			c.Clause("C10-D4")
 			ruleSendWholeMessages(c)
